@@ -19,8 +19,8 @@ RULE = ("each run = one seeded packet sequence (sizes on the compression-thresho
         "non-trivial = at least one frame was split by a partial read/write or a fault fired; distinct = distinct event-log digests")
 STATE_MEASURE = "distinct (transport, direction, fatal kind, position-in-frame class) cut points + distinct (T,C,compress) knob settings"
 REAL = ["rpyc.core.channel.Channel", "rpyc.core.stream.SocketStream", "rpyc.core.stream.PipeStream", "rpyc.core.stream.Stream.poll",
-        "rpyc.lib.Timeout", "zlib"]
-STUB = ["socket objects, os.read/os.write/os.pipe, poll (in-memory kernel)", "time (virtual clock)"]
+        "rpyc.lib.Timeout", "rpyc.lib.compat.PollingPoll", "zlib"]
+STUB = ["socket objects, os.read/os.write/os.pipe, select.poll (in-memory kernel)", "time (virtual clock)"]
 ASSUMPTIONS = ["the in-memory kernel reproduces POSIX stream-socket/pipe semantics (checked by --selftest kernel)",
                "CPython 3.12 as installed"]
 
